@@ -1,6 +1,6 @@
 (* C12 — Routes track peers: exactly the announced claims, nothing for the disconnected.
    Table half; the node half (every peer-removal path calls remove_claims) is in Node/NodeProofs. *)
-From VpnModel Require Import Base RangeMatch Table TableProofs Nonce Replay Core Conn PeerCrypto NodeInfo Node NodeProofs RoutesProofs.
+From VpnModel Require Import Base RangeMatch Table TableProofs Nonce Replay Core Conn PeerCrypto NodeInfo Node NodeProofs RoutesProofs NextHopProofs.
 
 (* T1: after set_claims the ranges attributed to the peer are exactly the announced ones, all with a
    fresh expiry; live entries of other peers untouched; if any claim of the peer was dropped all its
@@ -64,10 +64,44 @@ Theorem C12_crypto_housekeep_shape : forall salts now n,
 Proof. exact crypto_housekeep_shape. Qed.
 
 
+(* T4 (last sentence of the property, as an invariant): in EVERY state a node can reach - any events (datagrams from any source,
+   interface reads, housekeeping, dials) at any times > 0, any handshake salts - every claim and every cached / learned address of the
+   table belongs to a current peer, and handshake objects still in the pending map hold no key material (which is why they cannot
+   deliver data that would teach the table an address of a non-peer) *)
+Theorem C12_reachable_routes_point_at_peers : forall salts c t0 evs, Forall (fun te => (0 < fst te)%Z) evs ->
+  let n := nrun salts (node_new c t0) evs in
+  (forall cl, In cl (claims (n_table n)) -> ahas (n_peers n) (c_peer cl) = true) /\
+  (forall e, In e (cache (n_table n)) -> ahas (n_peers n) (e_peer e) = true) /\
+  (forall a pc, aget (n_pending n) a = Some pc -> pc_plain pc = false /\ pc_core pc = None).
+Proof. exact reachable_routes_point_at_peers. Qed.
+
+(* one step preserves it (INV n = RT n /\ PI n: the two halves above) *)
+Theorem C12_step_keeps_routes_at_peers : forall salts now n e, (0 < now)%Z -> INV n -> INV (fst (step salts now n e)).
+Proof. exact step_inv. Qed.
+
+(* hence: whatever next hop a lookup selects is a peer, and the interface path never meets "Sending to node that is not a peer" *)
+Theorem C12_next_hop_is_peer : forall salts c t0 evs now dst p, Forall (fun te => (0 < fst te)%Z) evs ->
+  fst (table_lookup (n_table (nrun salts (node_new c t0) evs)) now dst) = Some p ->
+  ahas (n_peers (nrun salts (node_new c t0) evs)) p = true.
+Proof. exact next_hop_is_peer. Qed.
+
+Theorem C12_iface_never_selects_non_peer : forall salts c t0 evs now frame s dst p t', Forall (fun te => (0 < fst te)%Z) evs ->
+  let n := nrun salts (node_new c t0) evs in
+  parse_frame (n_cfg n) frame = Ok (s, dst) -> table_lookup (n_table n) now dst = (Some p, t') ->
+  exists pd, aget (n_peers n) p = Some pd.
+Proof. exact iface_never_selects_non_peer. Qed.
+
+
 Example C12_ex_shrink :
   let t := table_set_claims (table_new 300 300) 5 1 [([10;0;0;0], 8); ([10;1;0;0], 16)] in
   map crange (claims (table_set_claims t 6 1 [([10;0;0;0], 8)])) = [([10;0;0;0], 8)].
 Proof. exact set_claims_shrink. Qed.
+
+(* a reachable state whose table does select a next hop (node B after A's ping and peng): the theorems above are not vacuous *)
+Example C12_ex_reachable_selects : Forall (fun te => (0 < fst te)%Z) ex_evs /\
+  fst (table_lookup (n_table (nrun salts (node_new cB 1) ex_evs)) 2 [10;0;1;9]) = Some 1001 /\
+  ahas (n_peers (nrun salts (node_new cB 1) ex_evs)) 1001 = true.
+Proof. exact ex_reachable_selects. Qed.
 
 Print Assumptions C12_set_claims_exact.
 Print Assumptions C12_expire.
@@ -76,3 +110,7 @@ Print Assumptions C12_expired_peer_routes_removed.
 Print Assumptions C12_closed_peer_routes_removed.
 Print Assumptions C12_failed_peer_routes_removed.
 Print Assumptions C12_crypto_housekeep_shape.
+Print Assumptions C12_reachable_routes_point_at_peers.
+Print Assumptions C12_step_keeps_routes_at_peers.
+Print Assumptions C12_next_hop_is_peer.
+Print Assumptions C12_iface_never_selects_non_peer.
